@@ -318,6 +318,11 @@ struct PipeRun {
 }
 
 fn run_pipeline(query: &str, input: &[u8], size: Option<(u16, u16)>, is_tty: bool, seed: u64, density: usize, pauses: Vec<(usize, u64)>) -> PipeRun {
+    run_pipeline_mode(query, input, OutputMode::Legacy, size, is_tty, seed, density, pauses)
+}
+
+#[allow(clippy::too_many_arguments)]
+fn run_pipeline_mode(query: &str, input: &[u8], mode: OutputMode, size: Option<(u16, u16)>, is_tty: bool, seed: u64, density: usize, pauses: Vec<(usize, u64)>) -> PipeRun {
     let q = query.to_string();
     let inp = input.to_vec();
     let (tx, rx) = mpsc::channel();
@@ -337,7 +342,7 @@ fn run_pipeline(query: &str, input: &[u8], size: Option<(u16, u16)>, is_tty: boo
                 z = (z ^ (z >> 27)).wrapping_mul(0x94D049BB133111EB);
                 ((z ^ (z >> 31)) % 100) < density as u64
             });
-            match Pipeline::verif_new_with_terminal(&qc, out, OutputMode::Legacy, size, is_tty, Some(refresh)) {
+            match Pipeline::verif_new_with_terminal(&qc, out, mode, size, is_tty, Some(refresh)) {
                 Ok(p) => {
                     p.process(BurstReader { data: inp, pos: 0, pauses });
                     true
@@ -467,6 +472,40 @@ fn same_cells(tty: &str, plain: &str) -> bool {
     true
 }
 
+/// does a legacy-mode frame drawn on a `w`×`h` terminal show the table `plain_text` (what a
+/// non-terminal run prints), up to padding / ellipsis, clipped to h−1 lines?  None = yes.
+fn frame_vs_plain(frame: &str, plain_text: &str, w: u16, h: u16, ordered: bool) -> Option<String> {
+    let tty_lines: Vec<&str> = frame.strip_suffix('\n').unwrap_or(frame).split('\n').collect();
+    let plain_lines: Vec<&str> = plain_text.strip_suffix('\n').unwrap_or(plain_text).split('\n').collect();
+    let want_n = plain_lines.len().min((h as usize) - 1);
+    if tty_lines.len() != want_n {
+        return Some(format!("frame has {} lines, the non-terminal table {} (height {})", tty_lines.len(), plain_lines.len(), h));
+    }
+    if plain_text == "No data\n" || frame == "No data\n" {
+        if plain_text != frame {
+            return Some(format!("frame {:?} vs non-terminal {:?}", c19::clip(frame, 80), c19::clip(plain_text, 80)));
+        }
+        return None;
+    }
+    // header, separator, body.  With fewer than 2 cells per column some columns are narrower than
+    // 2 and their cells are cut without an ellipsis: then only the shape is compared.
+    let ncols = plain_lines[0].split_whitespace().count();
+    let shape_only = tty_lines[0].chars().count() > w as usize || (w as usize) < 2 * ncols;
+    for (i, l) in tty_lines.iter().enumerate() {
+        if i == 1 {
+            if !l.chars().all(|c| c == '-') {
+                return Some("no separator line".into());
+            }
+            continue;
+        }
+        let ok = if ordered || i == 0 { same_cells(l, plain_lines[i]) } else { plain_lines[2..].iter().any(|p| same_cells(l, p)) };
+        if !ok && !shape_only {
+            return Some(format!("line {} of the frame {:?} does not show the cells of {:?}", i, c19::clip(l, 160), c19::clip(plain_lines.get(i).unwrap_or(&""), 160)));
+        }
+    }
+    None
+}
+
 fn level2(ctx: &mut Ctx, idx: usize, r: &mut Rng, idle: bool) {
     let q = &QUERIES[r.below(QUERIES.len())];
     level2_case(ctx, idx, r, idle, q, None);
@@ -564,45 +603,237 @@ fn level2_case(ctx: &mut Ctx, idx: usize, r: &mut Rng, idle: bool, q: &Q, fixed:
     }
     // P-level: the final frame is the table a non-terminal run prints, clipped to h-1 lines
     let last = frames.last().cloned().unwrap_or_default();
-    let tty_lines: Vec<&str> = last.strip_suffix('\n').unwrap_or(&last).split('\n').collect();
-    let plain_lines: Vec<&str> = plain_text.strip_suffix('\n').unwrap_or(&plain_text).split('\n').collect();
-    let want_n = plain_lines.len().min((h as usize) - 1);
-    let mut bad: Option<String> = None;
-    if tty_lines.len() != want_n {
-        bad = Some(format!("final frame has {} lines, the non-terminal table {} (height {})", tty_lines.len(), plain_lines.len(), h));
-    } else if plain_text == "No data\n" || last == "No data\n" {
-        if plain_text != last {
-            bad = Some(format!("final frame {:?} vs non-terminal {:?}", c19::clip(&last, 80), c19::clip(&plain_text, 80)));
-        }
-    } else {
-        // header, separator, body.  With fewer than 2 cells per column some columns are narrower than
-        // 2 and their cells are cut without an ellipsis: then only the shape is compared.
-        let ncols = plain_lines[0].split_whitespace().count();
-        let wide_header = tty_lines[0].chars().count() > w as usize || (w as usize) < 2 * ncols;
-        for (i, l) in tty_lines.iter().enumerate() {
-            if i == 1 {
-                if !l.chars().all(|c| c == '-') {
-                    bad = Some("no separator line".into());
-                }
-                continue;
-            }
-            let ok = if q.ordered || i == 0 {
-                same_cells(l, plain_lines[i])
-            } else {
-                plain_lines[2..].iter().any(|p| same_cells(l, p))
-            };
-            if !ok && !wide_header {
-                bad = Some(format!("line {} of the final frame {:?} does not show the cells of {:?}", i, c19::clip(l, 160), c19::clip(plain_lines.get(i).unwrap_or(&""), 160)));
-                break;
-            }
-        }
-    }
+    let bad = frame_vs_plain(&last, &plain_text, w, h, q.ordered);
     if let Some(what) = bad {
         ctx.case(family, &key, "viol", serde_json::json!({"class": "C16/final-frame-differs", "what": what, "final_frame": last, "non_tty": c19::clip(&plain_text, 2000), "case": info}));
         return;
     }
     ctx.case(family, &key, "pass", serde_json::json!({"query": q.query, "size": [w, h], "rows": rows, "frames": frames.len(), "refresh_density": density, "idle_pauses": pauses.len()}));
 }
+
+/* ---------- level 2b: aggregate of aggregate — downstream operators re-run on live state ---------- */
+
+/// second-level aggregates grouped by a value that changes while the input streams in: a group of
+/// the second level disappears again when no first-level row has that value any more
+const AGG_OF_AGG: &[&str] = &[
+    "* | json | count by a | count by _count",
+    "* | json | count as hits by u | count as users by hits",
+    "* | json | sum(n) as s by k | count as ks, sum(s) as total by s",
+    "* | json | count as hits by u | count as users by hits | where hits > 1",
+    "* | json | count as hits by u | count as users by hits | limit 2",
+    "* | json | count as hits by u | count as users by hits | sort by hits",
+    "* | json | count as hits by u | count as users by hits | total(users) as t",
+    "* | json | count by a | count by _count | count",
+    "* | json | count as hits by u | max(hits) as top, count as users by hits | sort by top desc",
+    "* | json | count as hits by u, a | count as pairs by hits | sort by pairs, hits",
+];
+
+fn agg_input(r: &mut Rng, rows: usize) -> Vec<u8> {
+    // few distinct keys, so that every first-level count passes through 1, 2, 3, …
+    let nu = 1 + r.below(4);
+    let na = 1 + r.below(3);
+    let mut s = String::new();
+    for _ in 0..rows {
+        s.push_str(&format!(
+            "{{\"u\":\"user{}\",\"a\":\"{}\",\"k\":\"k{}\",\"n\":{}}}\n",
+            r.below(nu),
+            ["x", "y", "z"][r.below(na)],
+            r.below(nu),
+            r.range(1, 4)
+        ));
+    }
+    s.into_bytes()
+}
+
+/// the model's table for `input` as one `AGG` call of the `TABLE` request (None: outside the model)
+fn model_table_call(ctx: &mut Ctx, ast: &str, input: &[u8]) -> Result<String, String> {
+    let ans = ctx.drv.ask(&format!("RUN\t{}\t{}", ast, enc::hexb(input)));
+    // OUT E<k> TAB <nc> cols… <nr> rows…
+    let toks: Vec<&str> = ans.split(' ').collect();
+    if toks.len() >= 4 && toks[0] == "OUT" && toks[2] == "TAB" {
+        Ok(format!("AGG {}", toks[3..].join(" ")))
+    } else {
+        Err(ans.chars().take(120).collect())
+    }
+}
+
+fn agg_of_agg(ctx: &mut Ctx, idx: usize, r: &mut Rng) {
+    let query = AGG_OF_AGG[r.below(AGG_OF_AGG.len())];
+    let rows = 4 + r.below(22);
+    let input = agg_input(r, rows);
+    let w = 60 + r.below(180) as u16;
+    let h = 14 + r.below(40) as u16;
+    // every row followed by a frame (density 100), or a random schedule with idle pauses
+    let every = r.chance(60);
+    let density = if every { 100 } else { *r.pick(&[30usize, 60, 100]) };
+    let seed = r.next();
+    let line_starts: Vec<usize> = std::iter::once(0).chain(input.iter().enumerate().filter(|(_, b)| **b == b'\n').map(|(i, _)| i + 1)).collect();
+    let mut pauses = vec![];
+    if !every {
+        for _ in 0..r.below(3) {
+            pauses.push((*r.pick(&line_starts), 60 + r.below(60) as u64));
+        }
+        pauses.sort();
+        pauses.dedup_by_key(|p| p.0);
+    }
+    let family = if every { "agg-of-agg" } else { "agg-of-agg-bursts" };
+    let key = format!("{}:{}", family, idx);
+    let info = serde_json::json!({"level": "pipeline", "query": query, "size": [w, h], "refresh_density": density, "refresh_seed": seed, "pauses": pauses, "rows": rows, "input_hex": enc::hexb(&input)});
+    let tty = run_pipeline(query, &input, Some((w, h)), true, seed, density, pauses.clone());
+    if tty.hung || tty.panicked.is_some() || !tty.compiled {
+        ctx.case(family, &key, "viol", serde_json::json!({"class": "C16/panic", "what": format!("terminal run failed: hung={} panic={:?} compiled={}", tty.hung, tty.panicked, tty.compiled), "case": info}));
+        return;
+    }
+    let text = String::from_utf8_lossy(&tty.bytes).into_owned();
+    let frames = split_frames(&text);
+    // the table of every prefix of the input, as a non-terminal run prints it
+    let mut prefix_tables: Vec<String> = vec![];
+    for k in 0..=rows {
+        let p = run_pipeline(query, &input[..line_starts[k]], None, false, seed, density, vec![]);
+        if p.panicked.is_some() || p.hung || p.writes != 1 {
+            ctx.case(family, &key, "viol", serde_json::json!({"class": "C16/non-tty-failed", "what": "non-terminal run of a prefix failed", "prefix": k, "case": info}));
+            return;
+        }
+        prefix_tables.push(String::from_utf8_lossy(&p.bytes).into_owned());
+    }
+    // P-level 1: every frame is the table of the rows received so far (prefixes never go back), the
+    // last one the table of all rows
+    let mut at = 0usize;
+    for (fi, f) in frames.iter().enumerate() {
+        let last = fi + 1 == frames.len();
+        let found = if last { (rows..=rows).find(|k| frame_vs_plain(f, &prefix_tables[*k], w, h, true).is_none()) } else { (at..=rows).find(|k| frame_vs_plain(f, &prefix_tables[*k], w, h, true).is_none()) };
+        match found {
+            Some(k) => at = k,
+            None => {
+                let class = if last { "C16/final-frame-differs" } else { "C16/stale-downstream-state" };
+                ctx.case(
+                    family,
+                    &key,
+                    "viol",
+                    serde_json::json!({"class": class, "what": format!("frame {} of {} is not the table of any prefix ≥ {} of the input{}: {}", fi, frames.len(), at, if last { " (final frame: not the table of all rows)" } else { "" },
+                        frame_vs_plain(f, &prefix_tables[if last { rows } else { at }], w, h, true).unwrap_or_default()),
+                        "frame": f, "expected_table": prefix_tables[if last { rows } else { at }], "case": info}),
+                );
+                return;
+            }
+        }
+    }
+    // P-level 2 + emulator agreement: final screen = final frame, no residue
+    let mut tap = VerdictTap::default();
+    judge_bytes_tap(ctx, &mut tap, w as usize, h as usize, &tty.bytes, &frames);
+    if let Some((verdict, mut payload)) = tap.0.take() {
+        if verdict != "pass" {
+            payload["case"] = info;
+            ctx.case(family, &key, &verdict, payload);
+            return;
+        }
+    }
+    // F-level: with a frame after every row the model predicts every frame: the model's table
+    // (`RUN`) of prefix k, through the model's printer with its width memory (`TABLE`), through the
+    // model's renderer (`TERMR`) must give the very bytes written.
+    if every && frames.len() == rows + 1 {
+        if let Some(ast) = imp::parse(query).ok().and_then(|p| p.0).map(|q| enc::query(&q)) {
+            let mut calls: Vec<String> = vec![];
+            let mut skipped: Option<String> = None;
+            for k in (1..=rows).chain(std::iter::once(rows)) {
+                match model_table_call(ctx, &ast, &input[..line_starts[k]]) {
+                    Ok(c) => calls.push(c),
+                    Err(e) => {
+                        skipped = Some(e);
+                        break;
+                    }
+                }
+            }
+            if let Some(e) = skipped {
+                ctx.case(family, "", "skip", serde_json::json!({"why": format!("model: {}", e.split(' ').take(6).collect::<Vec<_>>().join(" ")), "case": info}));
+                return;
+            }
+            let ans = ctx.drv.ask(&format!("TABLE\t{} {}\t4 8\t{}", w, h, calls.join("\t")));
+            let model_frames: Vec<String> = ans.split(' ').filter_map(|t| t.strip_prefix('T').filter(|_| t.len() > 1 || t == "T").map(|hx| String::from_utf8_lossy(&enc::unhex(hx)).into_owned())).collect();
+            if !ans.starts_with("OK") || model_frames.len() != frames.len() {
+                ctx.case(family, &key, "fdis", serde_json::json!({"what": format!("model printer answered {}", c19::clip(&ans, 200)), "case": info}));
+                return;
+            }
+            if let Some(i) = (0..frames.len()).find(|i| frames[*i] != model_frames[*i]) {
+                ctx.case(family, &key, "fdis", serde_json::json!({"what": format!("frame {} (after {} rows) differs from the model's frame", i, (i + 1).min(rows)), "impl_frame": frames[i], "model_frame": model_frames[i], "case": info}));
+                return;
+            }
+        }
+    }
+    ctx.case(family, &key, "pass", serde_json::json!({"query": query, "size": [w, h], "rows": rows, "frames": frames.len(), "refresh_density": density, "idle_pauses": pauses.len()}));
+}
+
+/* ---------- level 2c: row-oriented output modes on a terminal ---------- */
+
+fn row_modes(ctx: &mut Ctx, idx: usize, r: &mut Rng, fixed_w: Option<u16>) {
+    let query = *r.pick(&["* | json | count by k", "* | json | count by k, m", "* | json | sum(n) as total, count by k", "* | json | count by k | sort by k"]);
+    let (mode_name, mode) = match r.below(3) {
+        0 => ("logfmt", OutputMode::Logfmt),
+        1 => ("format", OutputMode::Format("{k} -> {_count}".to_string())),
+        _ => ("format", OutputMode::Format("k={k};".to_string())),
+    };
+    let rows = 2 + r.below(25);
+    let input = gen_input(r, rows, false);
+    let w = fixed_w.unwrap_or(60 + r.below(180) as u16);
+    let h = 20 + r.below(40) as u16;
+    let density = *r.pick(&[30usize, 100, 100]);
+    let seed = r.next();
+    let line_starts: Vec<usize> = std::iter::once(0).chain(input.iter().enumerate().filter(|(_, b)| **b == b'\n').map(|(i, _)| i + 1)).collect();
+    let mut pauses = vec![];
+    if r.chance(30) {
+        pauses.push((*r.pick(&line_starts), 60 + r.below(60) as u64));
+    }
+    let family = if fixed_w.is_some() { "fixed" } else { "row-modes" };
+    let key = format!("row-modes:{}", idx);
+    let info = serde_json::json!({"level": "pipeline", "mode": mode_name, "query": query, "size": [w, h], "refresh_density": density, "refresh_seed": seed, "pauses": pauses, "rows": rows, "input_hex": enc::hexb(&input)});
+    let tty = run_pipeline_mode(query, &input, mode.clone(), Some((w, h)), true, seed, density, pauses.clone());
+    let plain = run_pipeline_mode(query, &input, mode, None, false, seed, density, vec![]);
+    if tty.hung || tty.panicked.is_some() || !tty.compiled || plain.hung || plain.panicked.is_some() {
+        ctx.case(family, &key, "viol", serde_json::json!({"class": "C16/panic", "what": "run failed", "case": info}));
+        return;
+    }
+    if plain.writes > 1 || plain.bytes.contains(&0x1b) {
+        ctx.case(family, &key, "viol", serde_json::json!({"class": "C16/non-tty-writes", "what": format!("non-terminal run wrote {} times", plain.writes), "case": info}));
+        return;
+    }
+    let plain_text = String::from_utf8_lossy(&plain.bytes).into_owned();
+    let text = String::from_utf8_lossy(&tty.bytes).into_owned();
+    let mut scr = Screen::blank(w as usize, h as usize);
+    let mine = scr.display(&text).map(|_| (scr.cr, scr.cc, scr.row_strings()));
+    let model = model_screen(ctx, w as usize, h as usize, &tty.bytes);
+    if mine != model {
+        ctx.case(family, &key, "fdis", serde_json::json!({"what": "the harness's emulator and the model's emulator leave different screens", "bytes_hex": enc::hexb(&tty.bytes), "case": info}));
+        return;
+    }
+    // the rows of the final output are not clipped in these modes: keep them below the height
+    let n_lines = plain_text.matches('\n').count();
+    if n_lines + 1 > h as usize || plain_text.split('\n').any(|l| l.chars().count() > w as usize) {
+        ctx.case(family, "", "skip", serde_json::json!({"why": "final rows do not fit the terminal (row modes do not clip)", "case": info}));
+        return;
+    }
+    let want = if plain_text.is_empty() { expected_rows(w as usize, h as usize, "").into_iter().map(|_| " ".repeat(w as usize)).collect() } else { expected_rows(w as usize, h as usize, &plain_text) };
+    let rows_on_screen = mine.map(|x| x.2).unwrap_or_default();
+    if rows_on_screen != want {
+        let first_bad = (0..rows_on_screen.len().min(want.len())).find(|i| rows_on_screen[*i] != want[*i]).unwrap_or(0);
+        let class = if (w as usize) < PLACEHOLDER_LEN { "C16/placeholder-wider-than-terminal" } else { "C16/placeholder-residue-in-row-modes" };
+        let verdict = if OPEN_CLASSES.contains(&class) { "known" } else { "viol" };
+        ctx.case(
+            family,
+            &key,
+            verdict,
+            serde_json::json!({"class": class, "what": format!("after the final rows screen row {} shows {:?} instead of {:?}", first_bad, rows_on_screen.get(first_bad).map(|s| s.trim_end()), want.get(first_bad).map(|s| s.trim_end())),
+                "screen": rows_on_screen.iter().map(|s| s.trim_end().to_string()).filter(|s| !s.is_empty()).collect::<Vec<_>>(), "non_tty": c19::clip(&plain_text, 600), "bytes_hex": enc::hexb(&tty.bytes), "case": info}),
+        );
+        return;
+    }
+    ctx.case(family, &key, "pass", serde_json::json!({"mode": mode_name, "query": query, "size": [w, h], "rows": rows}));
+}
+
+/// `"data will be output once the computation is complete..."`
+const PLACEHOLDER_LEN: usize = 55;
+
+/// classes listed with status "open" in /verif/known_findings.json
+const OPEN_CLASSES: &[&str] = &["C16/placeholder-wider-than-terminal"];
 
 #[derive(Default)]
 struct VerdictTap(Option<(String, serde_json::Value)>);
@@ -709,6 +940,16 @@ pub fn check(ctx: &mut Ctx) {
     for i in 0..n2 {
         let mut r = ctx.rng.fork();
         level2(ctx, ctx.shard * 1_000_000 + i, &mut r, false);
+    }
+    let n4 = ctx.budget(240, 4000);
+    for i in 0..n4 {
+        let mut r = ctx.rng.fork();
+        agg_of_agg(ctx, ctx.shard * 1_000_000 + 600_000 + i, &mut r);
+    }
+    let n5 = ctx.budget(160, 3000);
+    for i in 0..n5 {
+        let mut r = ctx.rng.fork();
+        row_modes(ctx, ctx.shard * 1_000_000 + 700_000 + i, &mut r, None);
     }
     let n3 = ctx.budget(48, 800);
     for i in 0..n3 {
